@@ -16,6 +16,7 @@ func init() { props["C15"] = checkC15 }
 func checkC15(r *Run) {
 	r.Explain = "C15, structural clauses: (R1) the decoder's table is built as the exact inverse of the encoder's table (every slot reset to -1, then decode[encode[i]] = i for every i) from a 58-byte alphabet of distinct 7-bit characters whose zero digit is '1', the character both sides use for leading zero bytes; (R2) Decode succeeds only for non-empty strings all of whose runes are <= 127 and map to a digit (!= -1), the digit fed into the accumulator is the table entry of that same rune, table lookups are in range and no input-derived value is narrowed without a range check; (R3) the textual address reader and writer agree on the byte layout (key, version, checksum offsets, total length), AddressFromBytes succeeds only with the exact length, a checksum equal to the recomputed one and version 0, DecodeBase58Address is Decode followed by AddressFromBytes, String is Encode(Bytes), the checksum is the first 4 bytes of SHA256(key||version)."
 	r.NotDec = "agreement of the limb arithmetic of the fast encoder/decoder with the big-integer definition (numeric), sufficiency of the 138/100 buffer estimate; these are index-checked at run time, a violation panics"
+	ruleUntransformedText(r, "C15-R5", 20, "cipher.DecodeBase58Address", "cipher.MustDecodeBase58Address", "cipher/base58.Decode")
 	const dec = "cipher/base58.fastBase58DecodingAlphabet"
 	const enc = "cipher/base58.fastBase58EncodingAlphabet"
 	// R1 tables
